@@ -480,7 +480,11 @@ def expectations (steps, reqs):
   for rid in reqs:
     pos = [i for i, t in enumerate(seq) if t[0] == "S" and t[1] == rid]
     complete = bool(pos) and seq[pos[-1]][2] and len(pos) == len(reqs[rid].parts())
-    foreign = [i for i, t in enumerate(seq) if t[0] == "S" and t[1] != rid and pos and pos[0] < i < pos[-1]]
+    # parts of ANOTHER request between the first and the final part do not excuse anything as long as that request
+    # has its own transaction id (the quantifier of C17 includes "interleaved ... with a second request's reply");
+    # only parts that carry the same xid and type are indistinguishable from the reply's own parts
+    foreign = [i for i, t in enumerate(seq) if t[0] == "S" and t[1] != rid and pos and pos[0] < i < pos[-1]
+               and (reqs[t[1]].xid, reqs[t[1]].typ) == (reqs[rid].xid, reqs[rid].typ)]
     exp[rid] = dict(complete=complete, contiguous=complete and not foreign)
   return exp
 
